@@ -48,7 +48,10 @@ pub fn setup_world(dir: &str, setup: &Value) -> World {
 		w.refresh("w1", 1);
 		w.set_active("w1", "default");
 	}
-	w.refresh("w2", 1);
+	// (norefresh2: the peer has never looked at the chain - its observed height is still 0)
+	if !setup["norefresh2"].as_bool().unwrap_or(false) {
+		w.refresh("w2", 1);
+	}
 	w
 }
 
